@@ -761,6 +761,186 @@ def main_base(write=True):
     return _regen(generate_base, GEN_BASE, SNAP_BASE, write)
 
 
+HEADER_CHAIN = """/-
+  GENERATED by harness/py2lean.py from the source text of /repo on every check run — do not edit.
+  `Chain.fit` and `Chain.predict` (chain.py), statement by statement, over abstract steps: a step is what its `filter` does (the arguments the
+  next step receives, and the predictor `fit` leaves in the step if it has a `predict` method).  Props/C06.lean proves them equal to the model.
+-/
+import VerdeModel.Model.Chain
+namespace Verde.Gen
+open Verde
+
+"""
+GEN_CHAIN = os.path.join(VERIF, "lean", "VerdeModel", "Gen", "Chain.lean")
+SNAP_CHAIN = os.path.join(VERIF, "lean", "VerdeModel", "GenSnapshot", "Chain.lean.txt")
+
+
+def _is_name(n, name):
+    return isinstance(n, ast.Name) and n.id == name
+
+
+def _steps_loop(st, var):
+    """`for _, <var> in self.steps:` (names are labels; the steps are visited in list order)."""
+    return (isinstance(st, ast.For) and not st.orelse and isinstance(st.target, ast.Tuple) and len(st.target.elts) == 2
+            and isinstance(st.target.elts[0], ast.Name) and _is_name(st.target.elts[1], var)
+            and isinstance(st.iter, ast.Attribute) and _is_name(st.iter.value, "self") and st.iter.attr == "steps")
+
+
+def translate_chain():
+    path = "verde/chain.py"
+    src = open(os.path.join(REPO, path)).read()
+    tree = ast.parse(src)
+    cls = [n for n in tree.body if isinstance(n, ast.ClassDef) and n.name == "Chain"]
+    if not cls:
+        raise Untranslatable("class Chain not found")
+    meth = {n.name: n for n in cls[0].body if isinstance(n, ast.FunctionDef)}
+    out = []
+
+    def body_of(fn):
+        return [b for b in fn.body if not (isinstance(b, ast.Expr) and isinstance(b.value, ast.Constant))]
+
+    # ---------------------------------------------------------------- fit
+    fit = meth.get("fit")
+    if fit is None:
+        raise Untranslatable("Chain.fit not found")
+    params = [a.arg for a in fit.args.args]
+    if params != ["self", "coordinates", "data", "weights"]:
+        _fail(fit, "fit signature")
+    lines = []
+    body = body_of(fit)
+    k = 0
+    # attribute bookkeeping on self (region_): not part of the threading
+    while k < len(body) and isinstance(body[k], ast.Assign) and len(body[k].targets) == 1 and isinstance(body[k].targets[0], ast.Attribute) \
+            and _is_name(body[k].targets[0].value, "self") and body[k].targets[0].attr in ("region_",):
+        k += 1
+    st = body[k]
+    if not (isinstance(st, ast.Assign) and _is_name(st.targets[0], "args") and isinstance(st.value, ast.Tuple) and len(st.value.elts) == 3
+            and all(isinstance(e, ast.Name) and e.id in ("coordinates", "data", "weights") for e in st.value.elts)):
+        _fail(st, "fit: initial arguments")
+    lines.append("let args : Rows := ⟨" + ", ".join(e.id for e in st.value.elts) + "⟩      -- (positional: filter(coordinates, data, weights))")
+    k += 1
+    st = body[k]
+    if not _steps_loop(st, "step") or len(st.body) != 1:
+        _fail(st, "fit: loop over the steps")
+    a = st.body[0]
+    if not (isinstance(a, ast.Assign) and _is_name(a.targets[0], "args") and isinstance(a.value, ast.Call) and isinstance(a.value.func, ast.Attribute)
+            and _is_name(a.value.func.value, "step") and a.value.func.attr == "filter" and len(a.value.args) == 1 and isinstance(a.value.args[0], ast.Starred)
+            and _is_name(a.value.args[0].value, "args") and not a.value.keywords):
+        _fail(a, "fit: args = step.filter(*args)")
+    lines += ["let (args, fitted) ← self_steps.foldlM (fun (st : Rows × List (Option Predictor)) step => do",
+              "    let (args, fitted) := st",
+              "    let (args, left_in_step) ← step.filter args      -- args = step.filter(*args); fitting leaves the predictor in the step object",
+              "    pure (args, fitted ++ [left_in_step])) (args, [])"]
+    k += 1
+    st = body[k]
+    if not (isinstance(st, ast.Return) and _is_name(st.value, "self")) or k != len(body) - 1:
+        _fail(st, "fit: return self")
+    lines += ["let _ := args", "return fitted"]
+    seg = ast.get_source_segment(src, fit)
+    out.append(f"/-- translated statement by statement from {path}:{fit.lineno}-{fit.end_lineno} (Chain.fit), sha256 {hashlib.sha256(seg.encode()).hexdigest()[:16]};\n"
+               "    the value is the state `fit` leaves in `self.steps`: per step, its predictor if it has a `predict` method -/\n"
+               "def chainFit (self_steps : List Step) (coordinates : List (List Rat)) (data : Data) (weights : Option Data) : "
+               "Except Err (List (Option Predictor)) := do\n" + "\n".join("  " + ln for ln in lines) + "\n")
+
+    # ---------------------------------------------------------------- predict
+    pr = meth.get("predict")
+    if pr is None or [a.arg for a in pr.args.args] != ["self", "coordinates"]:
+        raise Untranslatable("Chain.predict signature")
+    body = body_of(pr)
+    k = 0
+    if isinstance(body[k], ast.Expr) and isinstance(body[k].value, ast.Call) and getattr(body[k].value.func, "id", None) == "check_is_fitted":
+        k += 1          # (NotFittedError belongs to the life-cycle model, C20)
+    st = body[k]
+    if not (isinstance(st, ast.Assign) and _is_name(st.targets[0], "result") and isinstance(st.value, ast.Constant) and st.value.value is None):
+        _fail(st, "predict: result = None")
+    lines = ["let result : Option (List Acc) := none"]
+    k += 1
+    loop = body[k]
+    if not _steps_loop(loop, "step") or len(loop.body) != 1 or not isinstance(loop.body[0], ast.If) or loop.body[0].orelse:
+        _fail(loop, "predict: loop over the steps")
+    cond = loop.body[0].test
+    if not (isinstance(cond, ast.Call) and getattr(cond.func, "id", None) == "hasattr" and len(cond.args) == 2 and _is_name(cond.args[0], "step")
+            and isinstance(cond.args[1], ast.Constant) and cond.args[1].value == "predict"):
+        _fail(cond, "predict: hasattr(step, 'predict')")
+    inner = loop.body[0].body
+    il = []
+    j = 0
+    st = inner[j]
+    v = st.value if isinstance(st, ast.Assign) else None
+    if isinstance(v, ast.Call) and getattr(v.func, "id", None) == "check_data" and len(v.args) == 1:
+        v = v.args[0]           # check_data: wraps a bare array in a tuple (tuple-ness is in the typing here)
+    if not (isinstance(st, ast.Assign) and _is_name(st.targets[0], "predicted") and isinstance(v, ast.Call) and isinstance(v.func, ast.Attribute)
+            and _is_name(v.func.value, "step") and v.func.attr == "predict" and len(v.args) == 1 and _is_name(v.args[0], "coordinates") and not v.keywords):
+        _fail(st, "predict: predicted = step.predict(coordinates)")
+    il.append("let predicted ← step_predict coordinates")
+    j += 1
+    st = inner[j]
+    ok = (isinstance(st, ast.If) and not st.orelse and isinstance(st.test, ast.Compare) and _is_name(st.test.left, "result") and isinstance(st.test.ops[0], ast.Is)
+          and isinstance(st.test.comparators[0], ast.Constant) and st.test.comparators[0].value is None and len(st.body) == 1
+          and isinstance(st.body[0], ast.Assign) and _is_name(st.body[0].targets[0], "result"))
+    if ok:
+        lc = st.body[0].value
+        ok = (isinstance(lc, ast.ListComp) and isinstance(lc.elt, ast.Constant) and lc.elt.value == 0 and type(lc.elt.value) is int and len(lc.generators) == 1
+              and not lc.generators[0].ifs and isinstance(lc.generators[0].iter, ast.Call) and getattr(lc.generators[0].iter.func, "id", None) == "range"
+              and len(lc.generators[0].iter.args) == 1 and isinstance(lc.generators[0].iter.args[0], ast.Call)
+              and getattr(lc.generators[0].iter.args[0].func, "id", None) == "len" and _is_name(lc.generators[0].iter.args[0].args[0], "predicted"))
+    if not ok:
+        _fail(st, "predict: if result is None: result = [0 for i in range(len(predicted))]")
+    il += ["let result := (match result with", "  | none => zerosAcc predicted.length      -- [0 for i in range(len(predicted))]", "  | some result => result)"]
+    j += 1
+    st = inner[j]
+    if not (isinstance(st, ast.For) and not st.orelse and isinstance(st.target, ast.Tuple) and [getattr(e, "id", None) for e in st.target.elts] == ["i", "pred"]
+            and isinstance(st.iter, ast.Call) and getattr(st.iter.func, "id", None) == "enumerate" and len(st.iter.args) == 1
+            and _is_name(st.iter.args[0], "predicted") and len(st.body) == 1 and j == len(inner) - 1):
+        _fail(st, "predict: for i, pred in enumerate(predicted)")
+    asg = st.body[0]
+    if not (isinstance(asg, ast.Assign) and len(asg.targets) == 1 and isinstance(asg.targets[0], ast.Subscript) and _is_name(asg.targets[0].value, "result")
+            and _is_name(asg.targets[0].slice, "i") and isinstance(asg.value, ast.BinOp) and isinstance(asg.value.op, ast.Add)):
+        _fail(asg, "predict: result[i] = result[i] + pred")
+
+    def operand(n):
+        if isinstance(n, ast.Subscript) and _is_name(n.value, "result") and _is_name(n.slice, "i"):
+            return "acc", "(← getAcc result i)"
+        if _is_name(n, "pred"):
+            return "arr", "pred"
+        _fail(n, "predict: operand of the accumulation")
+    (tl, xl), (tr, xr) = operand(asg.value.left), operand(asg.value.right)
+    if {tl, tr} != {"acc", "arr"}:
+        _fail(asg, "predict: accumulation must add the step's prediction to the running value")
+    acc_x, arr_x = (xl, xr) if tl == "acc" else (xr, xl)
+    il += ["let result ← predicted.zipIdx.foldlM (fun (result : List Acc) (pi : List Rat × Nat) => do      -- for i, pred in enumerate(predicted)",
+           "    let (pred, i) := pi",
+           f"    pure (setAcc result i (addAcc {acc_x} {arr_x}))) result      -- result[i] = result[i] + pred (not in place)",
+           "pure (some result)"]
+    lines += ["let result ← self_steps.foldlM (fun (result : Option (List Acc)) step => do",
+              "    match step with",
+              "    | some step_predict => do      -- hasattr(step, \"predict\")"] + ["        " + x for x in il] + \
+             ["    | none => pure result) result"]
+    k += 1
+    st = body[k]
+    ok = (isinstance(st, ast.If) and not st.orelse and isinstance(st.test, ast.Compare) and isinstance(st.test.left, ast.Call)
+          and getattr(st.test.left.func, "id", None) == "len" and _is_name(st.test.left.args[0], "result") and isinstance(st.test.ops[0], ast.Eq)
+          and getattr(st.test.comparators[0], "value", None) == 1 and len(st.body) == 1 and isinstance(st.body[0], ast.Return)
+          and isinstance(st.body[0].value, ast.Subscript) and _is_name(st.body[0].value.value, "result") and getattr(st.body[0].value.slice, "value", None) == 0)
+    k += 1
+    last = body[k] if k < len(body) else None
+    ok = ok and isinstance(last, ast.Return) and isinstance(last.value, ast.Call) and getattr(last.value.func, "id", None) == "tuple" \
+        and _is_name(last.value.args[0], "result") and k == len(body) - 1
+    if not ok:
+        _fail(st, "predict: if len(result) == 1: return result[0] / return tuple(result)")
+    lines += ["let result ← lenAccE result      -- len(result): TypeError when no step could predict", "return result      -- (a single component is returned bare: typing)"]
+    seg = ast.get_source_segment(src, pr)
+    out.append(f"/-- translated statement by statement from {path}:{pr.lineno}-{pr.end_lineno} (Chain.predict), sha256 {hashlib.sha256(seg.encode()).hexdigest()[:16]};\n"
+               "    `self_steps` is what `fit` left: per step, its predictor if it has a `predict` method -/\n"
+               "def chainPredict (self_steps : List (Option Predictor)) (coordinates : List (List Rat)) : Except Err (List Acc) := do\n"
+               + "\n".join("  " + ln for ln in lines) + "\n")
+    return HEADER_CHAIN + "\n".join(out) + "\nend Verde.Gen\n"
+
+
+def main_chain(write=True):
+    return _regen(translate_chain, GEN_CHAIN, SNAP_CHAIN, write)
+
+
 HEADER_TREND = """/-
   GENERATED by harness/py2lean.py from the source text of /repo on every check run — do not edit.
   `polynomial_power_combinations` (trend.py); Props/C03.lean proves it equal to the model's explicit monomial order.
